@@ -119,7 +119,7 @@ PROPS = {
         "trusted_base": TB_COMMON + [
             "modelled, not verified: the syntax tree fed to the specification is produced by the parser model (tied to the code by C07's stream)",
         ],
-        "assumptions": ["the theorem `mirror of resolve_variables = scope_spec` is stated (C08_resolve_statement) but not proved; the property is decided per generated instance"],
+        "assumptions": ["the theorems are about the mirror of resolve_variables; that the mirror is parser.rs is the correspondence of this stream (and of C07 for the syntax tree)"],
     },
     "C13": {
         "level": "proof",
@@ -385,13 +385,16 @@ MANIFEST_TEXT = {
         "technique": "generated skeleton-vs-grammar obligations (vm_compute) + extracted packrat model differential testing + Earley completeness oracle",
     },
     "C08": {
-        "text": "The scoping rules are a short stack-of-names function in Coq (scope_spec) whose behaviour on the characteristic cases "
-                "(sibling re-use, shadowing, unbound names, `_`, group scope over annotations) is pinned by kernel-checked computations; the "
-                "implementation's resolution is compared with the extracted specification on generated programs with re-used names and on "
-                "unbinding/shadowing perturbations. Partial proof: equality of the resolver mirror and the specification is stated, not proved.",
+        "text": "The scoping rules are a short stack-of-names function in Coq (scope_spec). Proved for every tree: the mirror of "
+                "resolve_variables (name->depth map with insert/overwrite/remove and an error counter) reports no error exactly when the "
+                "specification is defined, builds exactly the specification's term and restores its map (resolve_agrees, resolve_is_spec); "
+                "hence the mirror of parse() accepts only with the specified term and always when it is defined and the definition-order "
+                "check passes. The specification's behaviour on the characteristic cases (sibling re-use, shadowing, unbound names, `_`, "
+                "group scope over annotations) is pinned by kernel-checked computations; the implementation's resolution is compared with "
+                "the extracted specification and mirror on generated programs with re-used names and on unbinding/shadowing perturbations.",
         "design_ref": "DESIGN.md section 4, C08",
         "note": "Trusted: Coq kernel, extraction, OCaml driver, harness; the syntax tree comes from the parser model (C07).",
-        "technique": "executable Coq scoping specification (stack of names) + differential testing with renaming and perturbation",
+        "technique": "Coq proof that the resolver mirror equals the stack-of-names scoping specification + differential testing of the implementation against both with renaming and perturbation",
     },
     "C13": {
         "text": "Proved: the single hash-ordered iteration of the pipeline visits the SORTED duplicate-free list, which depends only on "
